@@ -1,9 +1,10 @@
 """C04 - frame encoding round-trips, respects the size limit, keeps the wire format."""
-import os, json, struct
+import os, json, struct, random
 import vlib
+import c04_sess
 
 PROP_FILES = ['Properties/C04']
-EXTRA_OBLIGATION_FILES = ['Proofs/AEAD', 'Proofs/Crypto', 'Proofs/CryptoVectors', 'Proofs/Codec']
+EXTRA_OBLIGATION_FILES = ['Proofs/AEAD', 'Proofs/Crypto', 'Proofs/CryptoVectors', 'Proofs/Codec', 'Proofs/SessionLimit']
 TRUSTED = [
     'Coq 8.16.1 kernel incl. vm_compute (no native_compute); all C04 theorems: Closed under the global context',
     'hand-written model coq/Model/Codec.v of obfuscate / deobfuscate / MakeObfuscator / maxStreamUnitWrite (Go slices as checked zslice, randomness as input)',
@@ -11,10 +12,13 @@ TRUSTED = [
     'constants (frameHeaderLength, maxExtraLen, padFirstNFrames, salsa20NonceSize, Overhead()/NonceSize() of the three AEADs, both on-wire limits) are regenerated from /repo by the Go compiler into coq/Gen/Consts.v on every run',
     'correspondence: in-package Go driver harness/multiplex/c04_test.go on the real Obfuscator vs extracted OCaml model (ExtrOcamlBasic only; N, Z, nat kept as datatypes), ocaml/c04_driver.ml; crypto/rand.Reader is replaced by a seeded byte source for part of the cases so that the two buffer placements can be compared byte for byte',
     'pure-Python Salsa20 + Cloak-v2 header/plain-body layout in tools/props/c04.py (third, model-independent implementation used by the oracle)',
+    'hand-written model coq/Model/SessionLimit.v of the size derivations of MakeSession and of Stream.Write / Stream.ReadFrom / the closing notices of closeStream and Session.Close as functions of the configured MsgOnWireSizeLimit; its length-only plans (proved equal to the model: C04_session_plans_agree) are what the extracted driver runs',
+    'session correspondence: harness/multiplex/c04_sess_test.go builds real Session pairs through MakeSession with a family of configured limits on a connection pair it owns (one message per Write, FIFO, no timing: the barrier is "the peer\'s deplex is back in Read with nothing pending"); crypto/rand.Reader is replaced by a reader whose single-byte reads follow a script (they decide padding lengths and notice sizes); tools/props/c04_sess.py generates the cases, compares with the model and holds the oracle',
 ]
 ASSUMPTIONS = [
     'stream id < 2^32, sequence number < 2^64, closing < 256 (the Go field types); payload non-empty',
-    'padding length padLen <= maxExtraLen - tagLen (what RandInt(maxExtraLen - tagLen + 1) can return); the buffer handed to obfuscate is at least the on-wire limit (streamSendBufferSize = MsgOnWireSizeLimit)',
+    'padding length padLen <= maxExtraLen - tagLen (what RandInt(maxExtraLen - tagLen + 1) can return)',
+    'session theorems: switchboard.send succeeds (a broken connection is C01/C12 territory); the reader handed to ReadFrom keeps the io.Reader contract (0 <= n <= len(p)); a limit is any Go int (<= 0 selects the default); the peer takes one message per Read into a connReceiveBufferSize buffer, so limits above connReceiveBufferSize (20480) or, on the TLS transport, above 16640 are outside what a deployed pair can carry (C04_session_limits_in_use proves the limits in use are below both)',
 ]
 
 TAG = {0: 8, 1: 16, 2: 16, 3: 16}
@@ -176,7 +180,7 @@ def run_go(ctx, lines, tag):
     inp = '%s/%s.go.in' % (ctx.work, tag)
     out = '%s/%s.go.out' % (ctx.work, tag)
     open(inp, 'w').write('\n'.join(lines) + '\n')
-    rc, log, dt = vlib.go_test(ctx, 'multiplex', 'TestVerifC04', files=['c04_test.go'], env=dict(VERIF_IN=inp, VERIF_OUT=out))
+    rc, log, dt = vlib.go_test(ctx, 'multiplex', 'TestVerifC04', files=['c04_test.go', 'c04_sess_test.go'], env=dict(VERIF_IN=inp, VERIF_OUT=out))
     return rc, log, vlib.read_lines_by_id(out)
 
 
@@ -259,17 +263,57 @@ def oracle_g(c, g):
     return fails
 
 
+def abbreviate(out):
+    import re
+    return re.sub(r'[0-9a-f]{48,}', lambda m: '<%d bytes>' % (len(m.group(0)) // 2), out)
+
+
+def session_replay(c, what, msg, out, nsame):
+    eff = c04_sess.eff_limit(c['limit'])
+    return dict(kind='session', case=c04_sess.short(c), line=c04_sess.go_line(c), method=MNAME[c['m']],
+                configuration=dict(MsgOnWireSizeLimit=c['limit'], limit_in_force=eff, per_frame_maximum=eff - HDR - MAXEXTRA,
+                                   unordered=bool(c['unordered']), method=MNAME[c['m']], session_key=c['key'].hex(),
+                                   single_byte_random_script=c['script'].hex(), operations=c['ops']),
+                message=(msg.hex() if msg else None), message_len=(len(msg) if msg else None),
+                implementation=abbreviate(out)[:3000], cases_with_this_failure=nsame,
+                how='python3 tools/check.py C04 --replay <this file>')
+
+
+def shrink_session(ctx, c, sig, what, msg, out):
+    """one round of shrinking: every operation on its own (plus the close), smallest first; keeps the original if none fails alike"""
+    cands = []
+    for i, op in enumerate(c['ops']):
+        if op == 'X':
+            continue
+        for tail in ([], ['X']):
+            cands.append(dict(c, id='%s.s%d%d' % (c['id'], i, len(tail)), ops=[op] + tail))
+    cands.sort(key=lambda k: sum(int(x) for x in ' '.join(k['ops']).replace(':', ' ').replace(',', ' ').split() if x.isdigit()))
+    try:
+        rc, log, go = run_go(ctx, [c04_sess.go_line(k) for k in cands], 'shrink')
+    except Exception:
+        return c, what, msg, out
+    for k in cands:
+        o = go.get(k['id'])
+        if o is None:
+            continue
+        for s2, w2, m2 in c04_sess.oracle(k, c04_sess.parse_go(o), py_header):
+            if s2 == sig:
+                return k, w2, m2, o
+    return c, what, msg, out
+
+
 def correspondence(ctx, verdict, pr):
     res = dict(broken=[])
     G, M, P = gen_cases(ctx)
+    S = c04_sess.gen_cases(random.Random(ctx.rng.getrandbits(64)), ctx.quick())
     cdir = vlib.V + '/corpus/C04'
     if os.path.isdir(cdir):
         for fn in sorted(os.listdir(cdir)):
             c = json.load(open(os.path.join(cdir, fn)))
-            for k in ('key', 'payload', 'rnd'):
+            for k in ('key', 'payload', 'rnd', 'script'):
                 if k in c:
                     c[k] = bytes.fromhex(c[k])
-            (G if c['id'].startswith('g') else M).insert(0, c)
+            (S if c['id'].startswith('q') else G if c['id'].startswith('g') else M).insert(0, c)
     key0 = hx(bytes(range(32)))
     sweeps = [('sw%d_%d' % (m, lim), '%s GSWEEP %d %s %d 1 %d 1' % ('sw%d_%d' % (m, lim), m, key0, lim, lim - HDR - MAXEXTRA))
               for m in range(4) for lim in LIMITS]
@@ -286,7 +330,7 @@ def correspondence(ctx, verdict, pr):
         msg = mo1.get(c['id'])
         if msg and msg != 'none':
             golines.append('%s.d DEC %d %s %s' % (c['id'], c['m'], hx(c['key']), msg))
-    golines += [i + ' ' + l for i, l in P] + [l for _, l in sweeps]
+    golines += [i + ' ' + l for i, l in P] + [l for _, l in sweeps] + [c04_sess.go_line(c) for c in S]
     rc, log, go = run_go(ctx, golines, 'phase2')
     if rc != 0:
         res['broken'].append(('Go driver TestVerifC04 failed to build or run', log[-3000:]))
@@ -303,6 +347,34 @@ def correspondence(ctx, verdict, pr):
             v = g.get(which, '')
             if v and v != 'same' and not v.startswith('err') and not v.startswith('panic'):
                 m2.append('%s.%s REENC %d %s %s' % (c['id'], which, c['m'], hx(c['key']), v))
+    sparsed, snames, sre = {}, {}, {}
+    nsmall, nbig = 0, 0
+    for c in S:
+        o = go.get(c['id'])
+        if o is None:
+            continue
+        g = c04_sess.parse_go(o)
+        sparsed[c['id']] = g
+        if g['cfg'] is None:
+            continue
+        line, names = c04_sess.model_line(c, g, py_header)
+        snames[c['id']] = names
+        m2.append(line)
+        # the independent decoder on a sample of what the sessions put on the wire
+        for name in g['order']:
+            if name[0] not in 'WRX':
+                continue
+            off = 0
+            for k, msg in enumerate(g['ops'][name]['msgs']):
+                take = (len(msg) <= 1100 and nsmall < (260 if ctx.quick() else 3000)) or (len(msg) > 8000 and nbig < (3 if ctx.quick() else 40))
+                if take:
+                    nsmall += len(msg) <= 1100
+                    nbig += len(msg) > 8000
+                    rid = '%s.%s.%d' % (c['id'], name, k)
+                    sre[rid] = (c, name, k, off, msg)
+                    m2.append('%s REENC %d %s %s' % (rid, c['m'], hx(c['key']), msg.hex()))
+                if len(msg) >= HDR + 8:
+                    off += len(msg) - HDR - py_header(c['key'], msg)[3]
     mrc2, merr2, mo2 = run_model(ctx, m2, 'phase3', nproc=4 if ctx.quick() else 10)
     if mrc2 != 0:
         res['broken'].append(('extracted model c04 failed (phase 3)', merr2[-2000:]))
@@ -376,6 +448,54 @@ def correspondence(ctx, verdict, pr):
             what = 'deobfuscate does not decode a message of the Cloak-v2 layout produced by the independent encoder: ' + d[:120]
             fail('interop-encode', what, c, dict(message=msg[:4000], implementation=d[:300]))
             mism.append((len(msg), what, c))
+    # real Sessions with a configured limit
+    skinds, sdistinct, smsgs, smism, sfails = [], set(), 0, [], {}
+    for c in S:
+        skinds.append('%s/%s/%s' % (MNAME[c['m']], c['kind'], 'unordered' if c['unordered'] else 'ordered'))
+        g = sparsed.get(c['id'])
+        if g is None:
+            continue
+        for name in g['order']:
+            for msg in g['ops'][name]['msgs']:
+                smsgs += 1
+                sdistinct.add((c['m'], c['limit'], c['unordered'], name[0], len(msg)))
+        for sig, what, msg in c04_sess.oracle(c, g, py_header):
+            sfails.setdefault(sig, []).append((c, what, msg))
+        mo = mo2.get(c['id'])
+        if mo is not None and c['id'] in snames:
+            for d in c04_sess.compare(c, g, mo, snames[c['id']], py_header):
+                smism.append((sum(len(x) for x in c['ops']), d, c))
+    for rid, (c, name, k, off, msg) in sre.items():
+        mo = mo2.get(rid)
+        if mo is None:
+            continue
+        parts = mo.split(' ', 2)
+        if parts[0] == 'none' or len(parts) < 3:
+            smism.append((len(msg), 'the independent decoder rejects message %d of %s (limit %d)' % (k, name, c['limit']), c))
+            sfails.setdefault('session-interop-decode', []).append((c, 'the independent decoder (extracted Gallina model) rejects message %d of %s' % (k, name), msg))
+            continue
+        fld = parts[2].split(' ')
+        if parts[0] != msg.hex():
+            smism.append((len(msg), 'the model re-encoding message %d of %s gives different bytes' % (k, name), c))
+        if name[0] in 'WR' and len(fld) >= 5:
+            idx = int(name[1:])
+            want = c04_sess.pattern(c['seed'], idx, int(c['ops'][idx].split(':')[1]))
+            pl = unhx(fld[4])
+            if fld[1] != '1' or fld[3] != '0' or pl != want[off:off + len(pl)]:
+                sfails.setdefault('session-interop-decode', []).append(
+                    (c, 'the independent decoder reads sid=%s closing=%s and a payload that is not the next %d bytes written (message %d of %s)'
+                     % (fld[1], fld[3], len(pl), k, name), msg))
+    for sig in sorted(sfails):
+        lst = sfails[sig]
+        c, what, msg = min(lst, key=lambda t: (len(t[2]) if t[2] else 0, sum(len(x) for x in t[0]['ops'])))
+        c2, what2, msg2, out2 = shrink_session(ctx, c, sig, what, msg, sparsed[c['id']]['raw'])
+        nfail[0] += 1
+        if nfail[0] <= 4:
+            verdict.oracle_failure(sig, 'C04 oracle: ' + what2, session_replay(c2, what2, msg2, out2, len(lst)))
+    if smism and rc == 0 and mrc2 == 0:
+        sz, what, c = min(smism, key=lambda t: t[0])
+        res['broken'].append(('model SessionLimit.v vs MakeSession / Stream.Write / ReadFrom / closing notices: %d differences' % len(smism),
+                              'smallest differing case: %s\n%s\nimplementation: %s' % (json.dumps(c04_sess.short(c))[:1500], what, abbreviate(sparsed[c['id']]['raw'])[:1500])))
     # primitives
     pbad = []
     for i, l in P:
@@ -403,14 +523,19 @@ def correspondence(ctx, verdict, pr):
         sz, what, c = min(mism, key=lambda t: t[0])
         res['broken'].append(('model Codec.v vs obfs.go: %d cases differ' % len(mism),
                               'smallest differing case: %s\n%s' % (json.dumps(short(c))[:1500], what)))
-    ctx.c04 = dict(G=G, M=M)
+    ctx.c04 = dict(G=G, M=M, S=S)
+    kinds += skinds
     verdict.cov.update(
-        evaluations=len(G) + len(M) + len(P) + sweep_n, distinct_nontrivial=len(distinct),
-        rule='distinct = distinct (method, payload length, seq class, message length / padding) among the model-compared cases; '
+        sessions=dict(built=len(sparsed), limits=sorted(set(c['limit'] for c in S)), messages_on_the_wire=smsgs,
+                      messages_through_the_independent_decoder=len(sre), model_differences=len(smism),
+                      oracle_failures={k: len(v) for k, v in sfails.items()}),
+        evaluations=len(G) + len(M) + len(P) + sweep_n + smsgs, distinct_nontrivial=len(distinct) + len(sdistinct),
+        rule='sessions: distinct (method, configured limit, mode, operation, message length) of the messages real Sessions built by MakeSession put on the wire, each compared with the model plan and judged by the oracle; '
+             'codec: distinct (method, payload length, seq class, message length / padding) among the model-compared cases; '
              'Go encodes -> model decodes + re-encodes with recovered padding (bytes identical); model encodes -> Go decodes; '
              'cipher primitives Go vs Gallina; plus a Go-only exhaustive sweep of every payload length 1..max for both limits, 4 methods, seq in {0,4,5,2^64-1}, both placements (%d encodes)' % sweep_n,
-        samples=[g_line(G[0])[:300], m_line(M[0])[:300], P[0][1][:200]],
-        traces_validated_against_impl=len(gparsed) + sum(1 for c in M if go.get(c['id'] + '.d')) + sum(1 for i, _ in P if go.get(i)),
+        samples=[g_line(G[0])[:300], m_line(M[0])[:300], P[0][1][:200], c04_sess.go_line(S[0])[:300]],
+        traces_validated_against_impl=len(gparsed) + sum(1 for c in M if go.get(c['id'] + '.d')) + sum(1 for i, _ in P if go.get(i)) + len(snames),
         mismatches=len(mism), oracle_failures=nfail[0], primitive_vectors=len(P), primitive_mismatches=len(pbad),
         paddings_seen={MNAME[m]: len(s) for m, s in padseen.items()},
         go_only_sweep_encodes=sweep_n,
@@ -423,6 +548,21 @@ def replay(ctx, verdict):
     line = r.get('line')
     if not line:
         print(json.dumps(r, indent=1)[:3000]); return 0
+    if r.get('kind') == 'session':
+        c = dict(r['case'])
+        c['key'] = bytes.fromhex(c['key']); c['script'] = bytes.fromhex(c['script'])
+        print('configuration:', json.dumps(r.get('configuration'))[:600])
+        rc, log, go = run_go(ctx, [line], 'replay')
+        o = go.get(c['id'])
+        if o is None:
+            print('the driver produced nothing:', log[-1500:]); return 1
+        print('implementation:', abbreviate(o)[:2000])
+        fails = c04_sess.oracle(c, c04_sess.parse_go(o), py_header)
+        for sig, what, msg in fails:
+            print('oracle:', sig, what)
+            if msg:
+                print('  message (%d bytes): %s' % (len(msg), msg.hex()[:160] + ('...' if len(msg) > 80 else '')))
+        return 1 if fails else 0
     print('case:', line[:400])
     if ' ENC ' in line:
         mrc, merr, mo = run_model(ctx, [line], 'replay')
